@@ -31,18 +31,21 @@ from vf import canon, mlib, sqlproxy
 LEVEL = "exploration"
 RULE = ("controlled schedules of 2-3 parse() calls at SQL-statement granularity over database states "
         "{absent, existing-unchecked, existing-checked, existing-with-entry, wrong-layout} x texts {same, different}: "
-        "every schedule with <= 1 preemption (thorough: <= 2) and seeded random schedule words; free-running stress with "
-        "2/4/8/16 processes released by a barrier (with/without <= 5 ms random delays at sqlite calls); distinct = digest of "
+        "every schedule with <= 1 preemption (thorough: <= 2) and seeded random schedule words; workers may see the folder through "
+        "their own symlink (own 'already checked' memory, like another process) and use expiration 0; free-running stress with "
+        "2/4/8/16 processes released by a barrier (with/without <= 5 ms random delays at sqlite calls; also on a cache folder that does not exist yet); distinct = digest of "
         "the realised schedule signature (worker, SQL kind, outcome) or of the stress configuration+round; non-trivial = "
         ">= 2 workers each executed >= 3 database calls")
 ASSUMPTIONS = ["the database is never corrupt in this workload (that is C01's), so an os.remove of it is a deletion of a live database",
                "a call that fails after a statement waited >= 4.5 s of the 5 s busy timeout is inconclusive (machine load), not a violation",
                "a worker that has not returned from a sqlite call after 30 ms is treated as waiting for a lock; the resulting interleavings are all real executions"]
 REQUIRED_MONITORS = ["calls_checked", "controlled_schedules_run", "sqlite_calls_scheduled", "stress_rounds_run", "db_integrity_checks", "db_rows_after_run"]
-BUDGET = {"quick": 90, "thorough": 1500}
+BUDGET = {"quick": 150, "thorough": 1800}
 VERSION = "1.0.vfc02"
 
 DB_STATES = ["absent", "existing-unchecked", "existing-checked", "existing-with-entry", "wrong-layout"]
+# the cache folder itself does not exist yet (free-running modes: the race is in the folder creation, before any sqlite call)
+FOLDER_ABSENT = "folder-absent"
 
 
 def texts_for(rng, n):
@@ -56,12 +59,16 @@ def texts_for(rng, n):
 def prepare_db(parser, folder, state, texts, rng):
     """-> database path; leaves parse.initialized_dbs in the wanted state for this path."""
     db = Path(folder) / "model_txt_cache.db"
-    if state == "absent":
+    if state in ("absent", FOLDER_ABSENT):
         return db
     other = "model Seed%d Real x; equation x = 1; end Seed%d;" % (rng.randint(0, 10 ** 6), rng.randint(0, 10 ** 6))
-    parser.parse(other, model_cache_folder=Path(folder))
-    if state == "existing-with-entry":
-        parser.parse(texts[0], model_cache_folder=Path(folder))
+    if state == "existing-with-entry" and rng.random() < 0.5:
+        parser.parse(texts[0], model_cache_folder=Path(folder))      # the entry is the first row of the table
+        parser.parse(other, model_cache_folder=Path(folder))
+    else:
+        parser.parse(other, model_cache_folder=Path(folder))
+        if state == "existing-with-entry":
+            parser.parse(texts[0], model_cache_folder=Path(folder))
     if state == "wrong-layout":
         c = sqlite3.connect(str(db), isolation_level=None)
         c.execute("DROP TABLE models")
@@ -116,7 +123,7 @@ def msg_class(m):
 # ------------------------------------------------------------------------------------------------
 # (a) controlled schedules
 
-def run_schedule(ctx, rng, idx, state, nworkers, same_text, word, label):
+def run_schedule(ctx, rng, idx, state, nworkers, same_text, word, label, variant=None):
     import pymoca
     parser = sys.modules["pymoca.parser"]
     folder = os.path.join(ctx.work, "c02_%d" % idx)
@@ -131,13 +138,32 @@ def run_schedule(ctx, rng, idx, state, nworkers, same_text, word, label):
         db = prepare_db(parser, folder, state, wtexts, rng)
         sched = sqlproxy.Scheduler(nworkers, word)
         hub = sqlproxy.Hub(sched=sched, db_path=db)
+        hub.db_name = "model_txt_cache.db"
         results = [None] * nworkers
         upd = [rng.random() < 0.5 for _ in range(nworkers)]
+        # each worker may see the folder through its own symlink: parse() keys its "already checked" memory by path,
+        # so such a worker behaves like a separate process (it runs its own check and prune, also while another
+        # worker that checked earlier is in the middle of a lookup).  Expiration 0 makes that prune delete every row.
+        views, expd = [], []
+        for i in range(nworkers):
+            own_view = rng.random() < 0.5 if variant is None else (i > 0 and bool(variant & 1))
+            if own_view:
+                link = os.path.join(ctx.work, "c02_%d_view%d" % (idx, i))
+                if os.path.lexists(link):
+                    os.remove(link)
+                os.symlink(folder, link)
+                views.append(link)
+                ctx.cover("worker-with-own-view-of-folder")
+            else:
+                views.append(folder)
+            expd.append((0 if rng.random() < 0.35 else 30) if variant is None else (0 if (i > 0 and variant & 2) else 30))
+            if expd[-1] == 0:
+                ctx.cover("worker-with-expiration-0")
 
         def worker(i):
             hub.register(i)
             try:
-                t = parser.parse(wtexts[i], model_cache_folder=Path(folder), always_update_last_hit=upd[i])
+                t = parser.parse(wtexts[i], model_cache_folder=Path(views[i]), always_update_last_hit=upd[i], cache_expiration_days=expd[i])
                 results[i] = ("ok", None if t is None else canon.digest(t))
             except BaseException as e:
                 from vf.worker import exc_sig
@@ -167,7 +193,7 @@ def run_schedule(ctx, rng, idx, state, nworkers, same_text, word, label):
         if status == "watchdog" or any(t.is_alive() for t in ths):
             ctx.inconclusive("watchdog: schedule %s on %s did not finish" % (label, state))
             return
-        case = {"mode": "controlled", "state": state, "nworkers": nworkers, "same_text": same_text, "word": list(word), "label": label,
+        case = {"mode": "controlled", "state": state, "nworkers": nworkers, "same_text": same_text, "word": list(word), "label": label, "variant": variant,
                 "signature": sig, "texts": wtexts}
         slow = any(e[3] >= 4.5 for e in hub.events)
         for i, r in enumerate(results):
@@ -193,6 +219,12 @@ def run_schedule(ctx, rng, idx, state, nworkers, same_text, word, label):
         pymoca.__version__ = saved_version
         if hasattr(parser.parse, "initialized_dbs"):
             parser.parse.initialized_dbs.discard(Path(folder) / "model_txt_cache.db")
+            for i in range(nworkers):
+                parser.parse.initialized_dbs.discard(Path(os.path.join(ctx.work, "c02_%d_view%d" % (idx, i))) / "model_txt_cache.db")
+        for i in range(nworkers):
+            link = os.path.join(ctx.work, "c02_%d_view%d" % (idx, i))
+            if os.path.islink(link):
+                os.remove(link)
         shutil.rmtree(folder, ignore_errors=True)
 
 
@@ -223,14 +255,19 @@ def controlled(ctx):
     for state in DB_STATES:
         for same in (True, False):
             for label, w in one_preemption_words(2, maxk):
-                jobs.append((state, 2, same, w, label))
+                jobs.append((state, 2, same, w, label, 0))
+    # the second worker behaves like another process (own view of the folder => own check and prune) with expiration 0
+    for state in ("existing-with-entry", "existing-checked", "existing-unchecked"):
+        for variant in ((3,) if ctx.quick() else (1, 2, 3)):
+            for label, w in one_preemption_words(2, maxk):
+                jobs.append((state, 2, False, w, label + ":v%d" % variant, variant))
     if not ctx.quick():
         for state in DB_STATES:
             for same in (True, False):
                 for label, w in two_preemption_words(maxk, 2):
-                    jobs.append((state, 2, same, w, label))
+                    jobs.append((state, 2, same, w, label, None))
                 for label, w in one_preemption_words(3, maxk):
-                    jobs.append((state, 3, same, w, label))
+                    jobs.append((state, 3, same, w, label, None))
     nrand = 300 if ctx.quick() else 20000
     r0 = ctx.subrng("c02-random-words")
     for k in range(nrand):
@@ -239,12 +276,12 @@ def controlled(ctx):
         w = []
         while len(w) < 150:
             w += [r0.randrange(nw)] * r0.choice([1, 1, 2, 3, 5])
-        jobs.append((r0.choice(DB_STATES), nw, r0.random() < 0.5, w, "rnd:%d" % k))
+        jobs.append((r0.choice(DB_STATES), nw, r0.random() < 0.5, w, "rnd:%d" % k, None))
     nsh = ctx.controlled_shards
-    for j, (state, nw, same, w, label) in enumerate(jobs):
+    for j, (state, nw, same, w, label, variant) in enumerate(jobs):
         if j % nsh != ctx.shard or ctx.out_of_time():
             continue
-        ctx.guarded(run_schedule, ctx, rng, j, state, nw, same, w, label, timeout=120)
+        ctx.guarded(run_schedule, ctx, rng, j, state, nw, same, w, label, variant, timeout=120)
 
 
 # ------------------------------------------------------------------------------------------------
@@ -268,6 +305,9 @@ def stress_round(ctx, rng, idx, nproc, state, delay, same_text):
                 f.write(t)
             paths.append(p)
         cache = os.path.join(folder, "cache")
+        if state == FOLDER_ABSENT:
+            os.rmdir(cache)
+            cache = os.path.join(folder, "not", "yet", "there")
         db = prepare_db(parser, cache, state, texts, rng)
         go = os.path.join(folder, "go")
         for i in range(nproc):
@@ -331,7 +371,7 @@ def stress(ctx, k):
         if r % nsh != k or ctx.out_of_time():
             continue
         nproc = [2, 4, 8, 16][r % 4]
-        state = ["absent", "absent", "existing-unchecked", "wrong-layout", "existing-with-entry"][(r // 4) % 5]
+        state = ["absent", FOLDER_ABSENT, "existing-unchecked", "wrong-layout", "existing-with-entry", FOLDER_ABSENT][(r // 4) % 6]
         ctx.guarded(stress_round, ctx, rng, r, nproc, state, delay=(r // 2) % 2 == 1, same_text=(r % 3 == 0), timeout=300)
 
 
@@ -352,6 +392,8 @@ def threads_round(ctx, rng, idx, nthreads, state, inject):
     try:
         texts = texts_for(rng, 3)
         refs = [canon.digest(parser.parse(t, bypass_cache=True)) for t in texts]
+        if state == FOLDER_ABSENT:
+            folder = os.path.join(folder, "not", "yet", "there")
         db = prepare_db(parser, folder, state, texts, rng)
         hub = sqlproxy.Hub(db_path=db)
         results = []
@@ -434,7 +476,7 @@ def threads(ctx, k):
     for r in range(rounds):
         if r % nsh != k or ctx.out_of_time():
             continue
-        ctx.guarded(threads_round, ctx, rng, r, [4, 8][r % 2], ["absent", "existing-unchecked", "wrong-layout"][(r // 2) % 3], inject=(r % 4 >= 2), timeout=300)
+        ctx.guarded(threads_round, ctx, rng, r, [4, 8][r % 2], ["absent", FOLDER_ABSENT, "existing-unchecked", FOLDER_ABSENT, "wrong-layout"][(r // 2) % 5], inject=(r % 4 >= 2), timeout=300)
 
 
 def run_shard(ctx):
@@ -459,7 +501,7 @@ def replay(ctx, case):
     ctx.controlled_shards = 1
     if case.get("mode") == "controlled":
         for k in range(5):
-            run_schedule(ctx, ctx.rng, 900000 + k, case["state"], case["nworkers"], case["same_text"], case["word"], case.get("label", "replay"))
+            run_schedule(ctx, ctx.rng, 900000 + k, case["state"], case["nworkers"], case["same_text"], case["word"], case.get("label", "replay"), case.get("variant"))
     elif case.get("mode") == "stress":
         for k in range(5):
             stress_round(ctx, ctx.rng, 900000 + k, case["nproc"], case["state"], case["delay"], case["same_text"])
